@@ -28,7 +28,7 @@ from cassandra.policies import SimpleConvictionPolicy, HostDistance  # noqa: E40
 META = dict(
     level='model_checking',
     level_text='every event history within the bound (solver-forked event choice per step, success/failure of each reconnection attempt and pool creation, removal during an attempt) runs through the real Cluster host-state methods and the real reconnection handler; after every step the invariants are checked: a down, known host has exactly one live reconnection series (or an up-transition in progress), a removed host has none and is never brought up, listeners see up/down once per transition, an up host has a pool in every session',
-    level_note='one host, two sessions, histories of at most 5 (thorough 6) events; collaborators are recorders; the executor runs tasks inline; pre-emption only at the blocking reconnection attempt (removal during it)',
+    level_note='one host, two sessions, histories of at most 5 (thorough 6) events; collaborators are recorders; the executor runs tasks inline; pre-emption at the blocking reconnection attempt (removal during it) and, in the race jobs, one pre-emption by a second thread (status up / status down / removal) at any acquire or release of the host lock inside the host-state methods',
     technique='symbolic execution (sx, solver-forked event and outcome variables) of the real cassandra.cluster.Cluster host-state methods, cassandra.pool._HostReconnectionHandler/_ReconnectionHandler.run and Host reconnection-handler bookkeeping over recorders',
     bounds=dict(quick='1 host, 2 sessions, <= 5 events from {connection failure (pools open or not), status down, status up, timer fires (attempt ok / fails / host removed during it), pool future completes (ok / false / raises), remove}',
                 thorough='<= 6 events'),
@@ -286,7 +286,6 @@ def jobs(tier):
     J = []
     for first in range(3):
         J.append(Job('history/e%d' % first, 'h_history', dict(steps=steps), dict(pin={'ev0': first}, max_paths=600000)))
-    if tier != 'quick':
-        for first in range(3):
-            J.append(Job('race/e%d' % first, 'h_history', dict(steps=3, race=True), dict(pin={'ev0': first}, max_paths=400000, max_seconds=1200)))
+    for first in range(3):
+        J.append(Job('race/e%d' % first, 'h_history', dict(steps=3 if tier == 'quick' else 4, race=True), dict(pin={'ev0': first}, max_paths=400000, max_seconds=1200)))
     return J
